@@ -52,7 +52,7 @@ def run_model_search(ctx):
     ctx.coverage["c09_model_search"] = {
         "with_serializable": {"idle_states": stats.get("idle_states", 0), "not_fixpoint": stats.get("idle_not_fixpoint", 0), "families": fam},
         "no_serializable": {"idle_states": stats2.get("idle_states", 0), "not_fixpoint": stats2.get("idle_not_fixpoint", 0),
-                            "runs_ending_in_requeue_cycle (F-21)": stats2.get("runs_cycle", 0)},
+                            "runs_ending_in_requeue_cycle (F-21 = F-C09-21)": stats2.get("runs_cycle", 0)},
     }
 
 
